@@ -1,0 +1,16 @@
+//go:build verif
+
+// C12: frames of the device-context queries used by overlord/snapstate.doInstall (assumptions).
+// Contracts for the deductive verifier in /verif (govc). Only compiled with -tags verif.
+
+package snap
+
+// the methods are declared by snap.Device, embedded in snapstate.DeviceContext; they answer from the
+// model assertion and write no program state
+//@ func (overlord/snapstate.DeviceContext).IsCoreBoot
+//@   trusted
+//@   assigns nothing
+
+//@ func (overlord/snapstate.DeviceContext).Model
+//@   trusted
+//@   assigns nothing
